@@ -43,7 +43,11 @@ impl Table {
     };
 }
 
-static mut TABLE: Table = Table::EMPTY;
+// NOTE: the second field only makes the static's initial bytes differ from the
+// constant `Table::EMPTY`: Kani 0.68 lets a `static mut` share storage with a
+// constant allocation of identical content, so installing a table would
+// otherwise change what `Table::EMPTY` reads as.
+static mut TABLE: (Table, u64) = (Table::EMPTY, 0x5eed_a10c_7ab1_e000);
 
 /// Install `table`, replacing the previous one.
 ///
@@ -51,11 +55,11 @@ static mut TABLE: Table = Table::EMPTY;
 ///
 /// Not synchronised: only call while no other thread uses the crate.
 pub(crate) unsafe fn install(table: Table) {
-    unsafe { TABLE = table };
+    unsafe { TABLE.0 = table };
 }
 
 pub(crate) fn table() -> Table {
-    unsafe { TABLE }
+    unsafe { TABLE.0 }
 }
 
 pub(crate) fn yield_point(kind: u32) {
